@@ -339,6 +339,15 @@ pub fn const_simplify(truth: &mut Truth, block: &mut ast::Block) -> Result<(), S
     match r { Ok(()) => Ok(()), Err(e) => { e.ignore(); Err(truth.get_captured_diagnostics().unwrap_or_default()) } }
 }
 
+/// the ECL pipelines' difficulty validation (mismatched switch lengths etc.)
+pub fn validate_difficulty(truth: &mut Truth, hooks: &dyn llir::LanguageHooks, block: &ast::Block) -> Result<(), String> {
+    let ctx = truth.ctx();
+    match truth::passes::validate_difficulty::run(block, ctx, hooks) {
+        Ok(()) => Ok(()),
+        Err(e) => { e.ignore(); Err(truth.get_captured_diagnostics().unwrap_or_default()) }
+    }
+}
+
 pub fn desugar(truth: &mut Truth, block: &ast::Block) -> Result<ast::Block, String> {
     let mut b = block.clone();
     let ctx = truth.ctx();
